@@ -312,10 +312,11 @@ func init() {
 			"filter callbacks always return true here, so the sequence must equal the unfiltered model sequence",
 			"delays never feed a verdict; a run set without any completion inversion is reported as inconclusive for the schedule part",
 		},
-		Cases:           c02Cases,
-		Exec:            c02Exec,
-		RaceIsViolation: true,
-		Workers:         8,
+		Cases:            c02Cases,
+		Exec:             c02Exec,
+		CrashIsViolation: true,
+		RaceIsViolation:  true,
+		Workers:          8,
 		Post: func(tier string, a *fw.Agg) {
 			if a.Counts["runs_with_inversion"] == 0 {
 				a.Inconclusive = append(a.Inconclusive, "no run showed a later block finishing before an earlier one: the schedule part was not exercised")
